@@ -690,6 +690,46 @@ func runTRIPLE(c *Ctx) {
 				"the three slices are parallel (n keys, n values, n+1 links); changing the length of one without the others shifts values or children against their keys")
 		}
 	}
+	// block-level pairing of Key and Value header stores: the two are always
+	// rebuilt side by side; a branch that grows Key but not Value shifts every
+	// later value against its key even if another branch updates both.
+	type bkey struct {
+		b    *ssa.BasicBlock
+		base string
+	}
+	blk := map[bkey]map[string]ssa.Instruction{}
+	for _, w := range A.Writes {
+		if w.Kind != "field" || (w.Field != "Key" && w.Field != "Value") {
+			continue
+		}
+		k := bkey{w.Instr.Block(), ir.Sym(ir.ResolveCell(w.Base))}
+		if blk[k] == nil {
+			blk[k] = map[string]ssa.Instruction{}
+		}
+		blk[k][w.Field] = w.Instr
+	}
+	var bks []bkey
+	for k := range blk {
+		bks = append(bks, k)
+	}
+	sort.Slice(bks, func(i, j int) bool {
+		ii, jj := firstInstr(blk[bks[i]]), firstInstr(blk[bks[j]])
+		return ii.Pos() < jj.Pos()
+	})
+	for _, k := range bks {
+		m := blk[k]
+		fn := k.b.Parent()
+		if m["Key"] != nil && m["Value"] != nil {
+			c.OK(P.InstrPos(m["Key"]), fmt.Sprintf("Key and Value of %s rebuilt together in %s", pathDesc(k.base), ir.FuncName(fn)), "same basic block", false)
+			continue
+		}
+		have, miss := "Key", "Value"
+		if m["Key"] == nil {
+			have, miss = "Value", "Key"
+		}
+		c.Violation(fn, P.InstrPos(m[have]), fmt.Sprintf("%s of %s changed on a branch that leaves %s alone", have, pathDesc(k.base), miss),
+			"Key and Value are parallel slices; this branch changes the length/contents of one only, so values no longer line up with their keys")
+	}
 	var es []key
 	for k := range elem {
 		es = append(es, k)
@@ -710,3 +750,13 @@ func runTRIPLE(c *Ctx) {
 }
 
 var _ = types.Typ
+
+func firstInstr(m map[string]ssa.Instruction) ssa.Instruction {
+	var best ssa.Instruction
+	for _, i := range m {
+		if best == nil || i.Pos() < best.Pos() {
+			best = i
+		}
+	}
+	return best
+}
